@@ -3,7 +3,7 @@
 import json, subprocess, os
 VERIF = os.path.dirname(os.path.abspath(__file__))
 
-HOOK_COMMITS = ["53cc68daa"]
+HOOK_COMMITS = ["53cc68daa"]  # H1: RNG draw override
 
 NA = {
  "C05": "checkMotion is a deterministic, state-free function of (s1, s2, validity predicate): no RNG, clock, I/O, retry, history or thread in it; choosing the predicate's answers is input generation, not fault injection. Its user-visible failure (invalid solution paths) is caught by C01's dense re-validation, its shared counters under concurrency by C19.",
@@ -25,6 +25,14 @@ CHECKS = {
    text="Seeded search over (a-d) histories of 1-4 continued solves, cut at simulator-chosen termination-condition evaluations, of the 19 cost-aware single-threaded planners (round-robin) under path length (with/without threshold), state-cost integral, mechanical work, max-min clearance and weighted multi-objective on generated worlds: after every solve each stored solution cost is compared with the recomputed path->cost(objective) (never better; equal for eager planners), with the straight-line admissible bound, the optimized flag with isSatisfied(stored cost), and the best stored cost must not worsen; (e) generated multisets of exact / approximate / objective-satisfying solutions with many ties, minimising and maximising objectives, added one by one to a ProblemDefinition: after every add getSolutions() must be a permutation of what was added, ordered by a reference comparator written from the statement, and the top-solution accessors must agree with element 0.",
    note="Trusted: the reference comparator and cost recomputation via PathGeometric::cost. Solution sets that mix solutions with and without a recorded objective are counted, not judged (the statement does not define 'lower cost' for such a pair). Concurrent adds to a shared problem definition are C19's surface.",
    technique="deterministic simulation: seeded resume histories with cancellation-point fault injection + reference-model comparison of the solution set, shrinking + replay"),
+ "C18": dict(engine="ptcsim", cat="exploration", ref="DESIGN.md 4/C18",
+   text="Seeded search over histories on the real termination-condition classes under the serialising scheduler and simulated clock: 1-5 base conditions (scripted predicate; periodically evaluated predicate, whose poller is the library's own std::thread running as a simulator thread and sleeping on simulated time; timed; timed with check interval; iteration count; always; never; exact-solution; cost-convergence) plus or/and/copy combinators, driven by 1-3 simulated caller threads through eval / terminate-from-another-thread / predicate flip / forward clock jump / clock stall / sleep / add solution / report solution cost, under random, PCT, round-robin or run-to-block scheduling with optional bounded starvation. Every eval is compared with a reference model evaluated on the same history (value must agree with the model state at invocation or at return; periodic forms: safety during the history, liveness after a settle of one period); 8% of the cases run Planner::solve(double) on an infeasible world and bound its return in simulated time.",
+   note="Trusted: the reference model (~150 lines) and the scheduler/clock interposers. Backward steps of the system clock are outside the quantifier and not injected. Timed conditions are not judged within 1 us of their deadline.",
+   technique="deterministic simulation: real threads parked/released by a seeded scheduler, simulated clock via link-time interposition, history vs reference model, shrinking + replay"),
+ "C19": dict(engine="concsim+plansim", cat="exploration", ref="DESIGN.md 4/C19",
+   text="(A, TSan build) 2-16 simulated caller threads execute generated operations on shared objects through the documented thread-safe surface (shared SpaceInformation isValid/checkMotion, shared GNAT queries with a non-empty removal cache, RNG and StateSpace construction, ProblemDefinition add/get solutions, logging, terminate vs eval) in a seeded serial order; the scheduler's futex hand-off is compiled outside TSan, so TSan reports exactly the conflicting accesses the library itself does not order, deterministically; functional results (motion counters == calls, queries == brute force, no lost solution, distinct RNG seeds / space names) are compared with the sequential answers. (B, ASan build) the threaded planners pRRT, pSBL, CForest, PRM, PRM*, SPARS, SPARStwo, AnytimePathShortening run as real threads under the seeded scheduler and simulated clock (interleaving chosen at every mutex operation, validity call, sleep, thread start/exit; optional starvation, external terminate() from another simulated thread, lazily produced goals), judged by the C01 path/status oracle, deadlock detection, ASan/UBSan.",
+   note="Trusted: the scheduler and interposers; TSan's finite shadow history (op sequences kept <= 400). Preemption happens only at yield points, so a lost update inside a plain ++ cannot be executed here; it is detected by TSan's happens-before analysis in part A. Races inside a planner's private state are not in the statement and not judged (part B runs without TSan).",
+   technique="deterministic simulation: seeded serialising scheduler over real threads (link-time interposed pthread/clock/sleep), TSan as race oracle with invisible hand-off, path/status oracles, shrinking + replay"),
  "C10": dict(engine="dssim", cat="exploration", ref="DESIGN.md 4/C10",
    text="Seeded search over op histories (add/add(vector)/remove/clear/nearest/nearestK/nearestR/list) on the real GNAT, GNAT-no-thread-safety, linear and sqrt-approx structures with swarm-chosen tree parameters, exact-tie metrics and simulator-owned pivot draws (hook H1), refined op by op against a brute-force reference model, under ASan/UBSan. Sampling, not enumeration: a clean run is evidence.",
    note="Trusted: the harness's metric functions and brute-force model (~60 lines). Assumes a single caller thread (concurrency is C19).",
@@ -63,8 +71,12 @@ def main():
         else:
             na.append(dict(property_id=pid, reason=PENDING.get(pid, "not claimed yet: the check for this property is designed (DESIGN.md 4) but not built/registered at this commit")))
     engines = [
-        dict(name="plansim", path="engines/plansim.cpp", serves_properties=["C01", "C03", "C04"],
+        dict(name="plansim", path="engines/plansim.cpp", serves_properties=["C01", "C03", "C04", "C19"],
              kind_free_text="whole real planners on generated worlds, one forked child per case, cancellation at chosen PTC evaluation, op histories"),
+        dict(name="ptcsim", path="engines/ptcsim.cpp", serves_properties=["C18"],
+             kind_free_text="termination-condition histories under the seeded scheduler and simulated clock vs a reference model"),
+        dict(name="concsim", path="engines/concsim.cpp", serves_properties=["C19"],
+             kind_free_text="thread-safe surface under a seeded serial order in a TSan build (hand-off invisible to TSan)"),
         dict(name="dssim", path="engines/dssim.cpp", serves_properties=["C10", "C11", "C12", "C13"],
              kind_free_text="in-process seeded op histories on the real data structures vs executable reference models"),
     ]
